@@ -642,11 +642,11 @@ func (bridge *ExprBridge) convertLikeToFunction(field, pattern string) string {
 		return fmt.Sprintf("%s contains '%s'", field, inner)
 	} else if strings.HasPrefix(pattern, "%") && len(pattern) > 1 {
 		// %pattern -> endsWith操作符
-		suffix := strings.TrimPrefix(pattern, "%")
+		suffix := strings.TrimLeft(pattern, "%") // "%%x" means the same as "%x"
 		return fmt.Sprintf("%s endsWith '%s'", field, suffix)
 	} else if strings.HasSuffix(pattern, "%") && len(pattern) > 1 {
 		// pattern% -> startsWith操作符
-		prefix := strings.TrimSuffix(pattern, "%")
+		prefix := strings.TrimRight(pattern, "%")
 		return fmt.Sprintf("%s startsWith '%s'", field, prefix)
 	} else if pattern == "%" {
 		// 单独的%匹配任何字符串
@@ -667,7 +667,7 @@ func (bridge *ExprBridge) matchesLikePattern(text, pattern string) bool {
 	ti, pi := 0, 0
 	starIdx, matchIdx := -1, 0
 	for ti < len(text) {
-		if pi < len(pattern) && (pattern[pi] == '_' || pattern[pi] == text[ti]) {
+		if pi < len(pattern) && pattern[pi] != '%' && (pattern[pi] == '_' || pattern[pi] == text[ti]) {
 			ti++
 			pi++
 		} else if pi < len(pattern) && pattern[pi] == '%' {
